@@ -437,3 +437,114 @@ class CsepAsciiWithId(CsepAscii):
         else:
             yield 'the catalog id is that of the last record (-1 if it is not a number)', \
                 z3.And(_n > _h, to_z3(cid) == z3.If(INT_OK(_n - 1, 5), INT_VAL(_n - 1, 5), z3.IntVal(-1)))
+
+
+# ------------------------------------------------------------------ JMA CSV
+from pyvc.models_io import CSV_INSTANT_US, field_is      # noqa: E402
+
+JMA = 'csep.utils.readers.jma_csv'
+JMA_HDR = field_is('timestamp')
+
+
+class JmaLoop(LoopInv):
+    """for id, line in enumerate(csv_reader): as CsepCsvLoop - one event per row from h on, event j from row j + h, id = row number"""
+
+    def trips(self, I, it):
+        src = it.inner if isinstance(it, Opaque) and hasattr(it, 'inner') else it
+        return to_z3(src.n)
+
+    def item(self, I, it, i):
+        return (i, csv_row(i))
+
+    def havoc(self, I, fr, i, it):
+        h = I.ctx.ghost['jma_csv']['h']
+        i = to_z3(i)
+        for nm in ('line', 'lon', 'lat', 'magnitude', 'origin_time', 'depth', 'id'):
+            fr.locals.pop(nm, None)
+        if I.ctx.branch(i <= h):
+            fr.locals['events'] = []
+            fr.locals['is_first_event'] = True
+            return
+        fr.locals['is_first_event'] = False
+        fr.locals['events'] = SymList(i - h, lambda j: JmaLoop.event_of_row(to_z3(j) + h), 'events')
+
+    @staticmethod
+    def time_ms(t):
+        return CSV_INSTANT_US(t, 0) / 1000
+
+    @staticmethod
+    def event_of_row(t):
+        return (t, JmaLoop.time_ms(t), FLOAT_VAL(t, z3.IntVal(2)), FLOAT_VAL(t, z3.IntVal(1)), FLOAT_VAL(t, z3.IntVal(3)), FLOAT_VAL(t, z3.IntVal(4)))
+
+    @staticmethod
+    def clause(I, ev, t):
+        num = lambda v: z3.is_expr(v) or isinstance(v, (int, float))
+        if not (isinstance(ev, tuple) and len(ev) == 6 and all(num(v) for v in ev)):
+            return z3.BoolVal(False)
+        return z3.And(to_z3(ev[0]) == t, to_real(ev[1]) * 1000 == z3.ToReal(CSV_INSTANT_US(t, 0)), to_real(ev[2]) == FLOAT_VAL(t, 2), to_real(ev[3]) == FLOAT_VAL(t, 1),
+                      to_real(ev[4]) == FLOAT_VAL(t, 3), to_real(ev[5]) == FLOAT_VAL(t, 4))
+
+    def inv(self, I, fr, i, it):
+        h = I.ctx.ghost['jma_csv']['h']
+        i = to_z3(i)
+        ev, first = fr.locals['events'], fr.locals['is_first_event']
+        n_ev = to_z3(ev.n) if isinstance(ev, SymList) else z3.IntVal(len(ev))
+        if self.mode == 'assume':
+            return
+        started = i > h
+        yield 'no event before the first record', z3.Implies(z3.Not(started), n_ev == 0)
+        yield 'one event per record read', z3.Implies(started, n_ev == i - h)
+        yield 'is_first_event <-> no record read yet', z3.BoolVal(False) if not isinstance(first, bool) else (z3.Not(started) if first else started)
+        j = I.ctx.fresh_int('j!sk')
+        if isinstance(ev, SymList):
+            yield 'event j is the event of row j + h', z3.Implies(z3.And(started, 0 <= j, j < n_ev), self.clause(I, ev.f(j), j + h))
+        else:
+            for k, e in enumerate(ev):
+                yield 'event %d is the event of row %d + h' % (k, k), self.clause(I, e, z3.IntVal(k) + h)
+
+
+def _directed_jma():
+    loc = dict(lat='35.9043', lon='139.0005', depth='11.1', mag='5.95')
+    recs = [dict(loc, t=[2017, 4, 22, 4, 42, '58.25']), dict(loc, t=[2019, 12, 31, 23, 59, '59.00']), dict(loc, lat='-42.5', lon='-179.95', t=[1969, 7, 20, 20, 17, '40.00']),
+            dict(loc, t=[2020, 2, 29, 0, 0, '0.50'], tz='+0000')]
+    return [('catalog_reader', dict(fmt='jma-csv', events=recs)), ('catalog_reader', dict(fmt='jma-csv', events=recs[:1])),
+            ('catalog_reader', dict(fmt='jma-csv', events=recs, opts={'header': False}))]
+
+
+@contract
+class JmaCsv:
+    directed = staticmethod(_directed_jma)
+    qualname = JMA
+    case = 'file of any number of rows, at most one header row (the first); numeric columns parse; instants on whole milliseconds'
+    properties = ('C19',)
+    loops = {0: JmaLoop()}
+
+    def params(c):
+        n = c.int('n_rows')
+        c.ctx.assume(n >= 0)
+        h = c.int('n_header')
+        c.ctx.ghost['jma_csv'] = dict(n=n, h=h)
+        c.ctx.ghost.setdefault('files', {})['catalog.csv'] = ('symrows', n)
+        return dict(fname='catalog.csv', _n=n, _h=h)
+
+    def requires(c, fname, _n, _h):
+        t = z3.Int('t!rq')
+        return [z3.Or(_h == 0, _h == 1), (_h == 1) == z3.And(_n >= 1, JMA_HDR(0, 0)),
+                z3.ForAll([t], z3.Implies(z3.And(1 <= t, t < _n), z3.Not(JMA_HDR(t, 0))), patterns=[JMA_HDR(t, 0)]),
+                z3.ForAll([t], z3.Implies(z3.And(_h <= t, t < _n), z3.And(CSV_INSTANT_US(t, 0) % 1000 == 0, *[FLOAT_OK(t, k) for k in (1, 2, 3, 4)])),
+                          patterns=[FLOAT_OK(t, 1)])]
+
+    def ensures(c, r, fname, _n, _h):
+        if isinstance(r, list):
+            yield 'no events only for a file without records', z3.BoolVal(not r) if r else _n <= _h
+            return
+        yield 'returns the list of events', z3.BoolVal(isinstance(r, SymList))
+        if not isinstance(r, SymList):
+            return
+        yield 'one event per record', to_z3(r.n) == _n - _h
+        j = c.ctx.fresh_int('j!sk')
+        yield 'event j == (row number, UTC instant of the time stamp in ms, latitude, longitude, depth, magnitude) of record j, in file order', \
+            z3.Implies(z3.And(0 <= j, j < _n - _h), JmaLoop.clause(c.I, r.f(j), j + _h))
+
+    def raises(c, exc, fname, _n, _h):
+        return None
